@@ -9,7 +9,7 @@ pub fn run(t: &[&str]) -> String {
 pub fn gen(rng: &mut Rng, tier: Tier, out: &mut Vec<String>) {
     let n = if tier == Tier::Quick { 500 } else { 20_000 };
     for i in 0..n {
-        let door = ['r', 'B', 'b', 'c'][i % 4];
+        let door = ['r', 'B', 'b', 'c', 'C', 'r', 'b', 'c'][i % 8];
         let colour_only = i % 5 == 4;
         let k = 1 + (i / 2) % 4;
         let ntris = if colour_only { 1 } else { 1 + rng.below(if tier == Tier::Quick { 4 } else { 8 }) as usize };
